@@ -30,7 +30,7 @@ var c11SafeRoots = []string{"/", "/a", "/b/{z}", "/c/d", "/d", "/e/{v}/f"}
 
 // "/a/x" below root "/a" is the route /a/a/x, whose path relative to the root reads like the
 // full path of the route "/x": RemoveRoute takes full paths
-var c11RoutePaths = []string{"", "/x", "/{id}", "/x/{id}", "/y", "/a/x"}
+var c11RoutePaths = []string{"", "/x", "/{id}", "/x/{id}", "/y", "/a/x", "/x", "/a/x"}
 
 type c11Route struct {
 	ID     string `json:"id"`
@@ -78,6 +78,16 @@ func genC11(t *rapid.T) C11Case {
 		nextRoute++
 		return r
 	}
+	// a route whose path reads like the full path of a sibling: "/a/x" below root "/a" next to "/x"
+	likeSibling := func(s int, r c11Route) c11Route {
+		root := pool[s]
+		if root == "/" || strings.Contains(root, "{") || len(created[s]) == 0 || rapid.IntRange(0, 3).Draw(t, "likesibling") != 0 {
+			return r
+		}
+		sib := created[s][rapid.IntRange(0, len(created[s])-1).Draw(t, "whichsibling")]
+		r.Method, r.Path = sib.Method, strings.TrimRight(root, "/")+sib.Path
+		return r
+	}
 	n := rapid.IntRange(5, 40).Draw(t, "nops")
 	for i := 0; i < n; i++ {
 		var regd, unreg []int
@@ -107,7 +117,7 @@ func genC11(t *rapid.T) C11Case {
 		case kind == 11 && len(idle) > 0:
 			// a route added while the service is not registered is there when it is added again
 			s := idle[rapid.IntRange(0, len(idle)-1).Draw(t, "routeidle")]
-			r := newRoute()
+			r := likeSibling(s, newRoute())
 			created[s] = append(created[s], r)
 			c.Ops = append(c.Ops, C11Op{Op: "route", Svc: s, Routes: []c11Route{r}})
 		case kind >= 12:
@@ -147,7 +157,7 @@ func genC11(t *rapid.T) C11Case {
 			c.Ops = append(c.Ops, C11Op{Op: "remove", Svc: s})
 		case kind < 7 && len(regd) > 0:
 			s := regd[rapid.IntRange(0, len(regd)-1).Draw(t, "routesvc")]
-			r := newRoute()
+			r := likeSibling(s, newRoute())
 			created[s] = append(created[s], r)
 			c.Ops = append(c.Ops, C11Op{Op: "route", Svc: s, Routes: []c11Route{r}})
 		case kind < 9 && len(regd) > 0:
